@@ -1,4 +1,4 @@
-package main
+package main_test
 
 // C19 — anchoring shifts values by gains and losses against the reference point.
 
